@@ -147,7 +147,11 @@ func genFont(r *vlib.Rand, o *genOpts) *Desc {
 		for j := 0; j < k; j++ {
 			code := r.Range(1, hi)
 			if r.Bool() {
-				code = r.Range(32, 32+3*n) // dense block: runs and shared glyphs
+				top := 32 + 3*n // dense block: runs and shared glyphs
+				if top > hi {
+					top = hi
+				}
+				code = r.Range(32, top)
 			}
 			if seen[code] || n < 2 {
 				continue
